@@ -75,6 +75,10 @@ def _hook_for(proxy):
         if fn == "self.index" and len(args) == 1:
             return it.list_method(view(), "index", list(args))
         if fn == "self._trigger":
+            # _trigger(trigger=True): a scope that notifies the watchers of `objects` when it closes (False: an inner call)
+            flag = args[0] if args else kwargs.get("trigger", True)
+            if flag is not False:
+                proxy.attrs["__notifying_scopes__"] = proxy.attrs.get("__notifying_scopes__", 0) + 1
             return Obj("notification_scope")
         if fn == "self._warn":
             return None
@@ -102,7 +106,7 @@ def _hook_for(proxy):
 
 
 GLOBALS = {"Undefined": Obj("Undefined"), "int": T_INT, "slice": T_SLICE, "dict": T_DICT,
-           "collections": Obj("collections", abc=Obj("collections.abc", Sequence=T_SEQ))}
+           "collections": Obj("collections", abc=Obj("collections.abc", Sequence=T_SEQ, Mapping=T_DICT, MutableMapping=T_DICT))}
 NOT_INLINED = {"_trigger", "_warn"}
 
 
@@ -168,6 +172,10 @@ def model(ctx):
         if o.kind != "return":
             problems.append((desc, "raises %s (specification: succeeds)" % getattr(o, "what", o.kind)))
             return
+        scopes = proxy.attrs.get("__notifying_scopes__", 0)
+        if scopes != 1:
+            problems.append((desc, "opens %d notifying scope(s): the watchers of `objects` are told %s, specification once per mutation%s" % (
+                scopes, "%d times" % scopes if scopes else "nothing", " (the second event's `old` is an intermediate state nobody asked for)" if scopes > 1 else "")))
         ev = exp_view(elems)
         en = exp_names(elems)
         if len(view) != len(ev) or any(a is not b for a, b in zip(view, ev)):
